@@ -307,6 +307,17 @@ def run(ctx):
                     else:
                         out += flat(cx[1], False)
                 return out
+            if cx[0] == "ite":
+                # a gated boolean (a validity helper seen through, a None test of a message chain): it is `tr` when the gate holds and the first
+                # alternative is `tr`, or the gate fails and the second one is - the gate itself is a disjunct where the alternative is constant
+                out = []
+                for cond_tr, leaf in ((True, strip(cx[2])), (False, strip(cx[3]))):
+                    if is_const(leaf) and isinstance(leaf[1], (bool, type(None), int)):
+                        if bool(leaf[1]) == tr:
+                            out += flat(cx[1], cond_tr)
+                    else:
+                        out += flat(leaf, tr)
+                return out
             return [(cx, tr)]
         verdicts = []
         for a, tr in flat(cs, truth):
